@@ -1,6 +1,6 @@
 (* An unbounded-width ECMA-48 line terminal (spec side of C06), fed byte by byte.
    Ground state: printable characters of width 1 overwrite at the column (a cell holds one character = its UTF-8 bytes),
-   CR, LF (new empty row, column kept), other C0 controls ignored, ESC starts an escape sequence.
+   CR, LF (new empty row, column kept), BS (one column left, saturating), other C0 controls ignored, ESC starts an escape sequence.
    CSI (ESC [) with an optional decimal parameter Pn (default 1, 0 counts as 1): CUF (C), CUB (D, saturating), DCH (P), ICH (@);
    EL (K) with Ps = 0 (default, cursor to end), 1 (start to cursor), 2 (whole line). Sequences with several parameters,
    intermediates or other final bytes are consumed and ignored. *)
@@ -71,7 +71,7 @@ Definition tstep (T : tstate) (b : N) : tstate :=
   let '(t, l) := T in
   match l with
   | LG =>
-    if b =? 13 then (feed1 t TCR, LG) else if b =? 10 then (feed1 t TLF, LG) else if b =? 27 then (t, LEsc)
+    if b =? 13 then (feed1 t TCR, LG) else if b =? 10 then (feed1 t TLF, LG) else if b =? 8 then (feed1 t TCUB, LG) else if b =? 27 then (t, LEsc)
     else if b <? 32 then (t, LG)
     else match lead_len b with
          | S O => (feed1 t (TChar [b]), LG)
